@@ -71,6 +71,17 @@ func TestVerifChild(t *testing.T) {
 	if fn == nil {
 		t.Fatalf("child: unknown role %q", req.Role)
 	}
+	// a child must not outlive the monitor that started it (a killed driver would leave a stuck child
+	// spinning for hours)
+	go func() {
+		pp := os.Getppid()
+		for {
+			time.Sleep(time.Second)
+			if os.Getppid() != pp {
+				os.Exit(3)
+			}
+		}
+	}()
 	res, err := fn(req.Args)
 	out := map[string]any{"result": res}
 	if err != nil {
